@@ -99,7 +99,9 @@ fn container(id: u8, s: &str) -> (String, String) {
     let sec = s.to_string();
     let client = || {
         BasicClient::new(ClientId::new("cid".into()))
-            .set_client_secret(ClientSecret::new(if matches!(id, 10 | 13 | 16 | 17) { sec.clone() } else { "fixed-client-secret".into() }))
+            // EVERY secret position of every container carries text derived from the case's secret (so that all of
+            // them differ between the two runs): a container that prints any one of them yields different outputs
+            .set_client_secret(ClientSecret::new(format!("{sec}#client-secret")))
             .set_auth_uri(AuthUrl::new("https://a.example/auth".into()).unwrap())
             .set_token_uri(TokenUrl::new("https://a.example/token".into()).unwrap())
             .set_device_authorization_url(DeviceAuthorizationUrl::new("https://a.example/dev".into()).unwrap())
@@ -111,8 +113,8 @@ fn container(id: u8, s: &str) -> (String, String) {
     match id {
         10 => two(&c),
         11 => two(&c.exchange_code(AuthorizationCode::new(sec.clone())).add_extra_param("k", "v")),
-        12 => two(&c.exchange_code(AuthorizationCode::new("fixed".into())).set_pkce_verifier(PkceCodeVerifier::new(sec.clone()))),
-        13 => two(&c.exchange_code(AuthorizationCode::new("fixed".into())).set_redirect_uri(Cow::Owned(RedirectUrl::new("https://o/".into()).unwrap()))),
+        12 => two(&c.exchange_code(AuthorizationCode::new(format!("{sec}#code"))).set_pkce_verifier(PkceCodeVerifier::new(sec.clone()))),
+        13 => two(&c.exchange_code(AuthorizationCode::new(format!("{sec}#code"))).set_redirect_uri(Cow::Owned(RedirectUrl::new("https://o/".into()).unwrap()))),
         14 => {
             let rt = RefreshToken::new(sec.clone());
             two(&c.exchange_refresh_token(&rt).add_scope(Scope::new("s".into())))
@@ -135,17 +137,17 @@ fn container(id: u8, s: &str) -> (String, String) {
             two(&c.authorize_url(move || CsrfToken::new(st)).add_scope(Scope::new("s".into())).set_pkce_challenge(PkceCodeChallenge::from_code_verifier_sha256(&PkceCodeVerifier::new("a".repeat(43)))))
         }
         22 | 23 => {
-            let mut t = BasicTokenResponse::new(AccessToken::new(if id == 22 { sec.clone() } else { "fixed".into() }), BasicTokenType::Bearer, EmptyExtraTokenFields {});
-            t.set_refresh_token(Some(RefreshToken::new(if id == 23 { sec.clone() } else { "fixed".into() })));
+            let mut t = BasicTokenResponse::new(AccessToken::new(if id == 22 { sec.clone() } else { format!("{sec}#at") }), BasicTokenType::Bearer, EmptyExtraTokenFields {});
+            t.set_refresh_token(Some(RefreshToken::new(if id == 23 { sec.clone() } else { format!("{sec}#rt") })));
             t.set_scopes(Some(vec![Scope::new("a".into())]));
             two(&t)
         }
         24 | 25 | 26 => {
             let doc = serde_json::json!({
-                "device_code": if id == 24 { sec.as_str() } else { "fixed" },
-                "user_code": if id == 25 { sec.as_str() } else { "fixed" },
+                "device_code": if id == 24 { sec.clone() } else { format!("{sec}#dc") },
+                "user_code": if id == 25 { sec.clone() } else { format!("{sec}#uc") },
                 "verification_uri": "https://v.example/",
-                "verification_uri_complete": if id == 26 { sec.as_str() } else { "fixed" },
+                "verification_uri_complete": if id == 26 { sec.clone() } else { format!("{sec}#vc") },
                 "expires_in": 600, "interval": 5});
             let d: StandardDeviceAuthorizationResponse = serde_json::from_value(doc).unwrap();
             two(&d)
